@@ -9,6 +9,7 @@ Import ListNotations.
 Local Open Scope N_scope.
 
 Section WithOracle.
+  Context {fx : FxEscape}.
   Variable gbk_runes : list N -> Z.
 
   (* the fall-through of NextTokenStruct: number, identifier / keyword, or illegal token *)
